@@ -85,6 +85,9 @@ fn probes(m: &Model) -> Vec<Vec<Bytes>> {
         if x != "-" && x != "+" {
             p.push(sv(&["XREAD", "STREAMS", "s", x]));
             p.push(sv(&["XREAD", "COUNT", "1", "STREAMS", "s", x]));
+            // two streams read from different ids (a seeded script-path parser paired every stream with the first id)
+            p.push(sv(&["XREAD", "STREAMS", "s2", "s", "0-0", x]));
+            p.push(sv(&["XREAD", "STREAMS", "s", "s2", x, "0-0"]));
         }
     }
     for c in ["0", "1", "2"] {
